@@ -367,6 +367,11 @@ func (o *Object) NextElementBytes(dst *Iter) (name []byte, t Type, err error) {
 	dst.calcNext(false)
 	elemSize := dst.addNext
 	dst.calcNext(true)
+	if elemSize < 0 {
+		// A container or root that claims to end before it starts (corrupt tape):
+		// moving o.off backwards would revisit the same elements forever.
+		return nil, TypeNone, errors.New("element has negative offset")
+	}
 	if dst.off+elemSize > len(dst.tape.Tape) {
 		return nil, TypeNone, errors.New("element extends beyond tape")
 	}
